@@ -56,16 +56,20 @@ def clampLevel (cfg : Cfg) (l : Int) : Int :=
 
 /-- events of one block; `start` = first free zig-zag position (1 after an INTRADC) -/
 def genEvents (cfg : Cfg) (start : Nat) : G (List Event) := do
-  let shape ← below 8
-  let n ← (if shape < 3 then range 1 2 else if shape < 6 then range 1 6 else if shape < 7 then range 6 20 else range 20 63)
+  let shape ← below 18
+  -- shape 17: a completely filled block (every remaining position coded, all runs zero); 16: filled except for the last positions
+  let n ← (if shape < 6 then range 1 2 else if shape < 12 then range 1 6 else if shape < 14 then range 6 20 else if shape < 16 then range 20 63
+           else pure 64)
+  let dense := shape ≥ 16
+  let stopAt ← (if shape = 16 then range 60 63 else pure 64)
   let rec go (k : Nat) (pos : Nat) (acc : List (Nat × Int × Bool)) : G (List (Nat × Int × Bool)) :=
     match k with
     | 0 => pure acc.reverse
     | k + 1 => do
-      if pos ≥ 64 then pure acc.reverse else
+      if pos ≥ 64 ∨ (dense ∧ pos ≥ stopAt) then pure acc.reverse else
       let maxRun := 63 - pos
       let r0 ← (do let c ← below 4; if c < 2 then pure 0 else if c < 3 then range 0 3 else range 0 40)
-      let run := min r0 maxRun
+      let run := if dense then 0 else min r0 maxRun
       let (lvl, _) ← genLevel cfg
       let esc ← coin 1 6
       go k (pos + run + 1) ((run, clampLevel cfg lvl, esc) :: acc)
